@@ -895,10 +895,12 @@ def _tmpdir():
     global _tmp
     if _tmp is None or not os.path.isdir(_tmp):
         import atexit
+        from multiprocessing import util
         base = os.path.join(tlc.OUT, "codec_tmp")
         os.makedirs(base, exist_ok=True)
         _tmp = tempfile.mkdtemp(prefix="p%d_" % os.getpid(), dir=base)
-        atexit.register(shutil.rmtree, _tmp, True)
+        atexit.register(shutil.rmtree, _tmp, True)                                    # main process
+        util.Finalize(None, shutil.rmtree, args=(_tmp, True), exitpriority=10)         # pool workers skip atexit
     return _tmp
 
 
@@ -918,12 +920,14 @@ class _WriterHeader:
 
 
 def _where(ex):
-    import traceback
-    tb = traceback.extract_tb(ex.__traceback__)
-    for fr in reversed(tb):
-        if "/commonroad/" in fr.filename:
-            return "%s@%s" % (type(ex).__name__, fr.name)
-    return type(ex).__name__
+    """exception type @ innermost function of the library (qualified name) - the abstract cause of a crash"""
+    tb, best = ex.__traceback__, None
+    while tb is not None:
+        code = tb.tb_frame.f_code
+        if "/commonroad/" in code.co_filename:
+            best = getattr(code, "co_qualname", code.co_name)
+        tb = tb.tb_next
+    return "%s@%s" % (type(ex).__name__, best) if best else type(ex).__name__
 
 
 def roundtrip(desc, d, fmt):
@@ -968,20 +972,19 @@ def roundtrip_event(case, fmt):
     back = project(r["orig"], r["back"], d) if r["back"] is not None else []
     check_clause_lengths(r["orig"])
     check_clause_lengths(back)
-    sig = comp if not r["exc"] else "%s/%s" % (comp, r["why"])
+    sig = fmt if not r["exc"] else "%s/%s" % (fmt, r["why"])      # the clause names the leaf; sig only the cause of a crash
     return {"op": "xml_roundtrip" if fmt == "xml" else "pb_roundtrip", "sig": sig, "d": d, "desc": desc,
             "orig": as_orig(r["orig"]), "back": back, "exc": r["exc"]}
 
 
 def xsd_case_event(case):
+    """None when the writer produced no document (a crash of the writer is C01's clause Total/write, not C03's)"""
     r = roundtrip(case["desc"], case["d"], "xml")
-    comp = case["comp"]
     if r["exc"] == "write":
-        return {"op": "xsd", "sig": "%s/%s" % (comp, r["why"]), "exc": "write", "els": [], "ids": [], "refs": [],
-                "lxml": "none", "detail": "", "reader": "none"}
-    ev = xsd_event(r["data"], comp, "ok" if r["exc"] == "" else "exc")
+        return None
+    ev = xsd_event(r["data"], "xsd", "ok" if r["exc"] == "" else "exc")
     if r["exc"]:
-        ev["sig"] = "%s/%s" % (comp, r["why"])
+        ev["sig"] = "xsd/%s" % r["why"]
     return ev
 
 
@@ -995,15 +998,17 @@ def _parallel(jobs):
 
 
 def model_check(ctx, schema_only=False):
-    comps = COMPONENTS + ["mixed"]
-    _parallel([(lambda c=c: ctx.mc("MC_Codec", "MC_Codec_%s.cfg" % c, coverage=False)) for c in comps])
+    comps = COMPONENTS + ["mixed", "mixedx"]
+    _parallel([(lambda c=c: ctx.mc("MC_Codec", "MC_Codec_%s.cfg" % c, coverage=False,
+                                   extra=("-seed", str(ctx.seed + 1)))) for c in comps])
 
 
 def gen_cases(ctx, fmt):
     """All cases of the per-component GEN runs the spec declares expressible in `fmt`, plus the seeded mixed draw."""
+    shutil.rmtree(os.path.join(tlc.OUT, "codec_tmp"), ignore_errors=True)       # leftovers of an interrupted run
     suffix = "_t" if ctx.thorough else ""
     cfgs = ["GEN_Codec_%s.cfg" % c for c in COMPONENTS if c != "numbers"] + ["GEN_Codec_numbers%s.cfg" % suffix,
-                                                                            "GEN_Codec_mixed%s.cfg" % suffix]
+                                                                            "GEN_Codec_mixed%s%s.cfg" % ("x" if fmt == "xml" else "", suffix)]
     outs = _parallel([(lambda cfg=cfg: tlc.generate("MC_Codec", cfg, "%s_%s" % (ctx.prop, cfg.replace(".cfg", "")),
                                                     extra=("-seed", str(ctx.seed + 1)))) for cfg in cfgs])
     cases, table = [], None
